@@ -168,6 +168,121 @@ pub fn rgs_rows(p: usize, cats: &[usize], labels: &[Vec<usize>], n: usize, cs: u
     rows
 }
 
+// ------------------------------------------------------------------------------------------------
+// many categories per column (extension, round 2)
+
+pub fn gcd(a: usize, b: usize) -> usize {
+    if b == 0 {
+        a
+    } else {
+        gcd(b, a % b)
+    }
+}
+
+/// Smallest s >= 2 coprime to k that is not k-1 (i -> i*s mod k is then a permutation of 0..k that is
+/// neither the identity nor the reversal up to rotation).
+pub fn stride(k: usize) -> usize {
+    (2..).find(|s| gcd(*s, k) == 1 && *s + 1 != k).unwrap()
+}
+
+/// Table of pairwise distinct u16 codes for many categories: both ends of the range first, then a
+/// multiplicative scramble (40503 is odd, so i -> 40503 i mod 65536 is injective; `many_tables_ok`
+/// checks that the part that is used avoids 0 and 65535).
+pub fn wide_code(i: usize) -> u16 {
+    match i {
+        0 => 65535,
+        1 => 0,
+        _ => ((i * 40503) % 65536) as u16,
+    }
+}
+
+/// Plan-time self-check of the many-category code table (pairwise distinct over the used range).
+pub fn many_tables_ok(upto: usize) -> bool {
+    let v: Vec<u16> = (0..upto).map(wide_code).collect();
+    (0..upto).all(|i| (0..i).all(|j| v[i] != v[j]))
+}
+
+pub const N_MANY_CODE_SCHEMES: usize = 4;
+/// Smallest category count of the many-category family.
+pub const MANY_K: usize = 7;
+
+/// Code of category id `id` (ids are numbered by first appearance in column A) in matrix column `col`
+/// when the job's category count is `k`:
+/// scheme 0: the id itself (first-appearance order = numeric order, same codes in every column);
+/// scheme 1: numerically descending in the id, different in every column;
+/// scheme 2: the contiguous codes 0..k in stride-coprime order, rotated by the column;
+/// scheme 3: the `wide_code` table (both ends of the u16 range, scrambled), shifted by the column.
+pub fn many_code(cs: usize, id: usize, col: usize, k: usize, seed: u64) -> f64 {
+    match cs {
+        0 => id as f64,
+        1 => (10 * (k - id) + col) as f64 + OFFS[(seed % 8) as usize],
+        2 => ((id * stride(k) + col + (seed % 8) as usize) % k) as f64,
+        _ => wide_code(id + 7 * col + (seed % 10) as usize) as f64,
+    }
+}
+
+/// Row patterns of the categorical column A with k categories (ids in row order):
+/// index 0: n = k, every category once; 1: n = 2k, pairs (0,0,1,1,..); 2: n = 2k, sweep then reversed
+/// sweep; 3: n = 2k, sweep then stride-coprime sweep; 4..: n = k+1, the sweep with one extra copy of
+/// category c inserted at row q, every (c, q) with c < q <= k  (k(k+1)/2 patterns).
+pub fn n_many_row_patterns(k: usize) -> usize {
+    4 + k * (k + 1) / 2
+}
+
+pub fn many_ids(k: usize, pattern: usize) -> Vec<usize> {
+    match pattern {
+        0 => (0..k).collect(),
+        1 => (0..2 * k).map(|r| r / 2).collect(),
+        2 => (0..k).chain((0..k).rev()).collect(),
+        3 => (0..k).chain((0..k).map(|i| (i * stride(k)) % k)).collect(),
+        _ => {
+            let mut t = pattern - 4;
+            let mut c = 0;
+            // category c has k - c possible insertion rows q = c+1 ..= k
+            while t >= k - c {
+                t -= k - c;
+                c += 1;
+            }
+            let q = c + 1 + t;
+            let mut v: Vec<usize> = (0..k).collect();
+            v.insert(q, c);
+            v
+        }
+    }
+}
+
+/// The three row patterns used by the error-clause jobs: every category once, the sweep plus a copy of
+/// category 0 in the last row (n = k+1), pairs (n = 2k).
+pub const MANY_ERR_PATTERNS: usize = 3;
+pub fn many_err_pattern(k: usize, e: usize) -> usize {
+    match e {
+        0 => 0,
+        1 => 4 + (k - 1), // c = 0, q = k
+        _ => 1,
+    }
+}
+
+/// (p, categorical columns): a single categorical column alone / first / middle / last, and two
+/// categorical columns with exactly one plain column between them (nothing else / plain columns around).
+pub const MANY_LAYOUTS: [(usize, &[usize]); 6] = [(1, &[0]), (3, &[0]), (3, &[1]), (3, &[2]), (3, &[0, 2]), (5, &[1, 3])];
+
+/// Matrix of a many-category case. Column A (= cats[0]) follows `ids`; a second categorical column B
+/// (= cats[1]) has `kb` categories in a reversed sweep, ids (n-1-r) mod kb.
+pub fn many_rows(p: usize, cats: &[usize], ids: &[usize], k: usize, kb: usize, cs: usize, seed: u64) -> Rows {
+    let n = ids.len();
+    let mut rows = vec![vec![0.0; p]; n];
+    for r in 0..n {
+        for c in 0..p {
+            rows[r][c] = match cats.iter().position(|x| *x == c) {
+                Some(0) => many_code(cs, ids[r], c, k, seed),
+                Some(_) => many_code(cs, (n - 1 - r) % kb, c, k, seed),
+                None => plain(cs % 3, r, c, seed),
+            };
+        }
+    }
+    rows
+}
+
 /// `idx`-th permutation of 0..m in lexicographic order (idx < m!).
 pub fn nth_perm(m: usize, mut idx: usize) -> Vec<usize> {
     let mut fact = vec![1usize; m + 1];
@@ -326,7 +441,10 @@ pub fn check_fit_transform(be: &dyn Backend, rows: &Rows, cats_sorted: &[usize],
     let n = rows.len();
     let exp = reference(rows, cats_sorted);
     let ks: Vec<usize> = exp.cats.iter().map(|c| c.len()).collect();
-    let class = layout_class(p, cats_sorted, &ks);
+    // layouts with a column of >= MANY_K categories are an input class of their own, decided from the
+    // input (the original quick space has at most 6 categories per column; the thorough `rgs` jobs with
+    // n >= 7 rows reach 7..9 categories and fall into the same class)
+    let class: String = if ks.iter().any(|k| *k >= MANY_K) { format!("{}-many-categories", layout_class(p, cats_sorted, &ks)) } else { layout_class(p, cats_sorted, &ks).to_string() };
     let head = || format!("{} p={} categorical={:?} (given as {:?}) k={:?} x={}", be.name(), p, cats_sorted, given, ks, fmt_rows(rows));
     let enc = match guarded_fit(be, rows, given) {
         FitOutcome::Panic(pi) => {
